@@ -6,6 +6,7 @@ import (
 	"fmt"
 	"math/big"
 	"reflect"
+	"regexp"
 	"sort"
 	"strings"
 	"time"
@@ -341,6 +342,9 @@ func (g *Gen) buildTx() *Step {
 		if !strings.HasPrefix(kind, "ICA") && g.R.Chance(p.StyleRate*0.4) {
 			g.spellOneAddressUpper(m)
 		}
+		if mode != ModeValid && g.R.Chance(0.12) {
+			g.misdirectOneID(m)
+		}
 		msgs = append(msgs, m)
 		if note != "" {
 			note += "+"
@@ -420,6 +424,51 @@ func (g *Gen) spellOneAddressUpper(m sdk.Msg) {
 			if i++; i-1 == k {
 				g.W.Probe("address_spelled_upper_case")
 				return strings.ToUpper(s)
+			}
+		}
+		return s
+	})
+}
+
+var (
+	reGenBatchDenom  = regexp.MustCompile(`^[A-Z]{1,3}[0-9]{2,}-[0-9]{3,}-[0-9]{8}-[0-9]{8}-[0-9]{3,}$`)
+	reGenProjectID   = regexp.MustCompile(`^[A-Z]{1,3}[0-9]{2,}-[0-9]{3,}$`)
+	reGenClassID     = regexp.MustCompile(`^[A-Z]{1,3}[0-9]{2,}$`)
+	reGenBasketDenom = regexp.MustCompile(`^eco\.[a-zA-Z]?[A-Z]{1,3}\.[a-zA-Z0-9]{3,8}$`)
+)
+
+// misdirectOneID rewrites one identifier of the message into a well-formed identifier of
+// something that does not exist (or, for a prefix-extended id, of a different thing).
+func (g *Gen) misdirectOneID(m sdk.Msg) {
+	alt := func(s string) (string, bool) {
+		switch {
+		case reGenBatchDenom.MatchString(s):
+			return s[:len(s)-3] + Pick(g.R, []string{"999", "000", "0010"}), true
+		case reGenProjectID.MatchString(s):
+			return s[:strings.LastIndex(s, "-")+1] + Pick(g.R, []string{"999", "0001", "000"}), true
+		case reGenClassID.MatchString(s):
+			return s + Pick(g.R, []string{"0", "9", "99"}), true
+		case reGenBasketDenom.MatchString(s):
+			return s[:strings.LastIndex(s, ".")+1] + Pick(g.R, []string{"NOPE", "Zzz9"}), true
+		}
+		return "", false
+	}
+	n := 0
+	walkStrings(reflect.ValueOf(m), func(s string) string {
+		if _, ok := alt(s); ok {
+			n++
+		}
+		return s
+	})
+	if n == 0 {
+		return
+	}
+	k, i := g.R.Intn(n), 0
+	walkStrings(reflect.ValueOf(m), func(s string) string {
+		if a, ok := alt(s); ok {
+			if i++; i-1 == k {
+				g.W.Probe("identifier_misdirected_to_nonexistent")
+				return a
 			}
 		}
 		return s
